@@ -2348,13 +2348,15 @@ class Window(Container):
         # scroll to this line.
         line_height = get_line_height(ui_content.cursor_position.y)
         if line_height > height - scroll_offsets_top:
-            # Calculate the height of the text before the cursor (including
-            # line prefixes).
+            # Calculate the height of the text up to and including the cursor
+            # cell (including line prefixes). The cursor cell has to be part
+            # of it: when the text before the cursor fills its rows exactly,
+            # the cursor itself is the first cell of the next row.
             text_before_height = ui_content.get_height_for_line(
                 ui_content.cursor_position.y,
                 width,
                 self.get_line_prefix,
-                slice_stop=ui_content.cursor_position.x,
+                slice_stop=ui_content.cursor_position.x + 1,
             )
 
             # Adjust scroll offset.
